@@ -307,6 +307,35 @@ pub fn generate(rng: &mut Rng, tier: Tier, emit: &mut dyn FnMut(String)) {
             emit(format!("conne {}/{}/{}/{} {}", rng.below(2), mode, iv, to, ops.join(";")));
         }
     }
+    // split frames (C02's `gen_conn_split`: one well-formed answer in several writes, cancellations / orphan steps /
+    // submissions between the pieces) on the OTHER configurations of the router: with an event sender, with keep-alive
+    // (ticks and `trigger_keepalive` hints while a frame is half read), with both
+    for i in 0..(if quick { 240 } else { 6_000 }) {
+        let line = crate::c02::gen_conn_split(rng);
+        let mut w = line.split(' ');
+        let (_, wc, ops) = (w.next(), w.next().unwrap_or("0"), w.next().unwrap_or(""));
+        let mut ops2: Vec<String> = Vec::new();
+        for op in ops.split(';') {
+            ops2.push(op.to_owned());
+            if op.starts_with('b') && i % 3 != 0 {
+                match rng.below(4) {
+                    0 => ops2.push("h".into()),
+                    1 => ops2.push(format!("t{}", *rng.pick(&[50u64, 100, 150, 300]))),
+                    _ => {}
+                }
+            }
+        }
+        let (iv, to) = *rng.pick(&[(300u64, 200u64), (100, 400), (5000, 5000)]);
+        match i % 3 {
+            0 => emit(format!("conne {} {}", wc, ops)),
+            1 => emit(format!("conne {}/0/{}/{} {}", wc, iv, to, ops2.join(";"))),
+            _ => emit(format!("ka {}/{}/{} {}", wc, iv, to, ops2.join(";"))),
+        }
+    }
+    // a new connection whose `USE <session keyspace>` is never answered (3.5 s each)
+    for k in if quick { vec![2usize] } else { vec![2, 3, 5] } {
+        emit(format!("poolk {}", k));
+    }
     // hints: long before the first tick; while a probe is in flight (stored, consumed afterwards); twice (one permit)
     for c in [
         "ka 1/30000/300 s;s;t500;h",
@@ -840,6 +869,7 @@ pub fn run(case: &str, ctx: &mut Ctx) -> String {
         Some("rp") if w.len() == 3 => crate::c10_pool::run_rp(w[1], w[2], ctx),
         Some("rp") if w.len() == 2 => crate::c10_pool::run_rp(w[1], "", ctx),
         Some("poolr") if w.len() == 2 => crate::c10_pool::run_poolr(w[1], ctx),
+        Some("poolk") if w.len() == 2 => crate::c10_pool::run_poolk(w[1], ctx),
         Some("race") if w.len() == 3 => match w[2].parse::<u64>() {
             Ok(seed) => run_race(w[1], seed, ctx),
             Err(_) => "bad-case".to_owned(),
